@@ -283,6 +283,19 @@ def main():
     # control/call skeleton differs from the baseline (restructured loops, new or removed callees): the contract's
     # proof text was written for another shape of the body
     reshaped = {fn for fn, h in b.get('bodies', {}).items() if fn in edited and _bh(base_bodies.get(fn), 1) != h[1]}
+    # RESTRUCTURED: the skeleton changed by >= 8 tokens, or by >= 4 tokens and >= 30% of the body, or the function now
+    # calls a function that did not exist / no longer calls one that was removed.  Small edits (a changed constant,
+    # operator, bound, one added branch) are not restructurings.
+    gone_fns = {fn.split('::')[-1] for fn in base_bodies if fn not in b.get('bodies', {})}
+    restructured = set()
+    shape_dist = {}
+    for fn in reshaped:
+        old_t = _bh(base_bodies.get(fn), 2) or []
+        new_t = b['bodies'][fn][2]
+        d_ = vrun.shape_distance(old_t, new_t)
+        shape_dist[fn] = d_
+        if d_ >= 8 or (d_ >= 4 and d_ * 10 >= 3 * max(1, len(old_t))) or any(t_[:-2] in gone_fns for t_ in old_t if t_.endswith('()')):
+            restructured.add(fn)
     new_shape = []
     structural = []   # failures that leave P undecided by proof (bounded stand-in decides), never violations by themselves
     SEMANTIC = ('requires', 'ensures', 'const_ensures', 'closure_ensures', 'loop_ensures')
@@ -361,17 +374,23 @@ def main():
             else:
                 keep.append(f)
         mine = keep
-    # Restructured functions: when the control/call skeleton of a function changed (new helper without a contract,
-    # merged or re-nested loops) a failed obligation there first of all says that the proof text no longer fits -
-    # "a failed proof means undecided".  If the native oracle exhibits no failing input for this property, such a
-    # failure leaves it undecided by proof (bounded stand-in decides) instead of raising an unconfirmed alarm.
-    # Small edits that keep the skeleton (constants, operators, indices, bounds) stay violations in any case.
+    # Restructured functions (see `restructured` above) and functions calling a new helper that has no contract: a
+    # failed obligation there first of all says that the proof text no longer fits the body - "a failed proof means
+    # undecided".  If the native oracle exhibits no failing input for this property, such a failure leaves it
+    # undecided by proof (bounded stand-in decides) instead of raising an unconfirmed alarm.  Every other failed
+    # semantic obligation - in particular after a small edit - stays a violation (no-failing-input-found when the
+    # corpus has no witness).
+    # a function of the current tree that did not exist when the contracts were written has no contract: its callers
+    # know nothing about its result, so their obligations cannot be discharged whatever it computes
+    new_fns = {fn.split('::')[-1] for fn in b.get('bodies', {}) if fn not in base_bodies}
+    def calls_new_helper(fn):
+        return bool(set(b.get('calls', {}).get(fn, [])) & new_fns)
     if confirmed is not None and pid not in confirmed and mine:
         keep = []
         for f in mine:
-            if f['fn'] in reshaped:
+            if f['fn'] in edited and (calls_new_helper(f['fn']) or f['fn'] in restructured):
                 structural.append(dict(f, reshaped=True))
-                print('NOTE property=%s obligation %s failed in the restructured function %s and no failing input exists in the corpus: undecided by proof' % (pid, f.get('oid') or f['msg'], f['fn']))
+                print('NOTE property=%s obligation %s failed in the restructured function %s (skeleton distance %s, new callees: %s) and no failing input exists in the corpus: undecided by proof' % (pid, f.get('oid') or f['msg'], f['fn'], shape_dist.get(f['fn']), ','.join(sorted(set(b.get('calls', {}).get(f['fn'], [])) & new_fns)) or '-'))
             else:
                 keep.append(f)
         mine = keep
@@ -415,7 +434,7 @@ def main():
     unchecked = [f for f in cone_fns if f not in fr and f not in [x[0] for x in assumed]]
     unchecked += ['%s (%s)' % lw for lw in lost_here if lw[0] not in unchecked]
     for f in structural:
-        tool.append({'msg': ('obligation failed in a restructured function (proof text no longer fits), no failing input in the corpus: ' if f.get('reshaped') else 'a contract clause of another property failed in a function this property relies on: ' if f.get('cone_only') or f.get('explained_by') else 'new safety obligation in edited function not discharged: ' if f in new_shape else 'proof scaffolding (untagged invariant / proof step / safety side-condition) not discharged: ') + (f['oid'] or '') + ' ' + f['msg'], 'fn': f['fn'], 'line': f['line'], 'compile': False})
+        tool.append({'msg': ('obligation failed in a function that calls a new helper without contract, no failing input in the corpus: ' if f.get('reshaped') else 'a contract clause of another property failed in a function this property relies on: ' if f.get('cone_only') or f.get('explained_by') else 'new safety obligation in edited function not discharged: ' if f in new_shape else 'proof scaffolding (untagged invariant / proof step / safety side-condition) not discharged: ') + (f['oid'] or '') + ' ' + f['msg'], 'fn': f['fn'], 'line': f['line'], 'compile': False})
     forced_fns = set(V['forced'])
     unchecked += [f for f in cone_fns if f in forced_fns and f not in unchecked]
     tool_mine = [t for t in tool if t['fn'] is None or t['fn'] in cone_fns or t['fn'] not in {c_.name for c_ in b['contracts']}]
